@@ -26,6 +26,8 @@ type Config struct {
 	CheckEvery int    `json:"check_every,omitempty"` // full-contents check every n ops (default 1)
 	Mirror    string  `json:"mirror,omitempty"` // "file": every completed Store is also written through the real file store to a scratch directory
 	Extra     string  `json:"extra,omitempty"` // generator note ("giant": one node of hundreds of entries)
+	OneSided  string  `json:"onesided,omitempty"` // "keys" / "vals": only KeysLike / only ValuesLike is given (persisting may be refused; if it succeeds it must read back)
+	Prefixes  string  `json:"prefixes,omitempty"` // how the two stores of a two-store run name themselves: "" sim://d0 sim://d1; "port": the S3 adapter's prefix for two endpoints differing in the port; "slash": "…/app" and "…/app/"
 	CbOnly    string  `json:"cbonly,omitempty"` // "unmarshal": only RemoteConfig.Unmarshal is set (a number-preserving JSON decoder); "marshal": only RemoteConfig.Marshal is set
 	CbFaults  bool    `json:"cbfaults,omitempty"` // Marshal/Unmarshal/KeyCompare are the counting wrappers; some inserts run with one Marshal call (outside any comparison) failing
 	CmpScale  int     `json:"cmpscale,omitempty"` // loader KeyCompare returns CmpScale * sign (a comparator need not return exactly -1/0/1)
@@ -190,6 +192,12 @@ func (c *Config) RemoteConfig(kd *KeyDialect, vd *ValDialect, p mast.Persist, ca
 		rc.KeysLike = kd.Like()
 		rc.ValuesLike = vd.Like()
 	}
+	switch c.OneSided {
+	case "keys":
+		rc.ValuesLike = nil
+	case "vals":
+		rc.KeysLike = nil
+	}
 	if c.Marshaler != "json" && c.Marshaler != "" {
 		rc.Marshal = c.MarshalFn()
 		rc.Unmarshal = c.UnmarshalFn()
@@ -215,6 +223,10 @@ func (c *Config) RemoteConfig(kd *KeyDialect, vd *ValDialect, p mast.Persist, ca
 }
 
 func (c *Config) NewRoot() *mast.Root {
+	if c.BF == 16 && c.Format == FmtBinary {
+		// the documented defaults: the way most callers get their first root
+		return mast.NewRoot(nil)
+	}
 	opts := &mast.CreateRemoteOptions{BranchFactor: c.BF}
 	switch c.Format {
 	case FmtBinary:
